@@ -80,6 +80,8 @@ def corpus_cases(weakly):
                             [(1, Not(Or(And(Not(a), Not(bb_)), a)), c), (2, bb_, T), (3, a, c)], True))
         cs.append(make_case("corp-w-mixed", 4, [(1, f, b), (2, Not(f), p), (3, b, p), (4, F, w)],
                             [(1, f, p), (2, Not(w), T), (3, b, And(p, w)), (4, Not(f), Or(p, w))], True))
+    for c in cs:
+        c["id"] += "-w" if weakly else "-s"
     return cs
 
 
